@@ -5,8 +5,9 @@ VIEW View
 CONSTANTS
   MaxLen = 4
   FullLen = 1
-  Core = {1, 3, 4, 5, 6, 8, 9, 10, 11, 12, 13, 14, 21, 26, 30}
+  Core = {1, 3, 4, 5, 6, 8, 9, 11, 12, 13, 14, 21, 30}
   Families = {"rich", "rand"}
   NRand = 12
   RandSize = 12
+INVARIANT TreesOK0
 INVARIANT Emit
